@@ -5,6 +5,7 @@ C18 line-protocol driver.
   orerr <inp> <e><u>  <env>        ReplaceOrErr(errOnEmpty=e, errOnUnknown=u), e,u ∈ {0,1}
   func  <inp> <fid>   <env>        ReplaceFunc with harness function number fid
   http  <bodyTmpl> <hdrTmpl> <varTmpl> <X-In> <q> <path> <secret>   end-to-end: vars middleware + static_response
+  httpm <key> <matchVal> <varV> <X-In> <q> <secret>   vars matcher result + vars_regexp capture group 1
   cost  <mode> <n> <mult>          timing witness (answer is the constant `cost`)
 env = `.` or `k:v;k:v;…` (hex fields).  Answers: `ok <hex>` | `err:<class>` | `panic`.
 -/
@@ -69,6 +70,14 @@ def handle : List String → String
       | some (ob, oh) => "ok " ++ Hex.encode ob ++ " " ++ Hex.encode oh
       | none => "panic"
     | _, _, _, _, _, _, _ => "bad-op"
+  | ["httpm", key, mval, varv, x, q, secret] =>
+    match Hex.decode key, Hex.decode mval, Hex.decode varv, Hex.decode x, Hex.decode q, Hex.decode secret with
+    | some k, some mv, some vv, some x, some q, some s =>
+      let r : HttpReq := ⟨x, q, [47], s, vv⟩
+      match varsMatch k mv r, varsRegexpCaptured k r with
+      | some b, some c => "ok " ++ (if b then "1" else "0") ++ " " ++ Hex.encode c
+      | _, _ => "panic"
+    | _, _, _, _, _, _ => "bad-op"
   | ["cost", _, _, _] => "cost"
   | _ => "bad-op"
 
